@@ -77,18 +77,34 @@ structure St where
   defHist : List (String × Nat) := []
   nonMonoHist : List (String × Nat) := []
   nonMonoSrc : List (String × Nat) := []
+  diffSeen : List (String × Nat) := []
+  failSeen : List (String × Nat) := []
   out : Array String := #[]
 
 def St.msg (s : St) (m : String) : St := { s with out := s.out.push m }
+/-- the words `op=… class=…` / `kind=… nodekind=…` of a message: messages are capped *per key* so that a frequent class cannot
+    hide a rare one -/
+def msgKey (m : String) : String :=
+  " ".intercalate (((m.splitOn " ").filter fun w =>
+    w.startsWith "op=" ∨ w.startsWith "class=" ∨ w.startsWith "kind=" ∨ w.startsWith "nodekind=").take 3)
+
+def lookup (h : List (String × Nat)) (k : String) : Nat := ((h.find? fun p => p.1 == k).map (·.2)).getD 0
+
 def St.diff (s : St) (m : String) : St :=
-  if s.diffs < 200 then { s with diffs := s.diffs + 1, out := s.out.push ("DIFF case=" ++ s.caseId ++ " " ++ m) }
+  let k := msgKey m
+  if lookup s.diffSeen k < 6 then
+    { s with diffs := s.diffs + 1, diffSeen := bump s.diffSeen k, out := s.out.push ("DIFF case=" ++ s.caseId ++ " " ++ m) }
   else { s with diffs := s.diffs + 1 }
+
 /-- in C08 mode only the C08 property itself (`class=defined-bit-contradicted`) is reported; the C03 verdicts on the same
     stream (result shapes, unsafe netlists, crashes) belong to `checks/c03.py` -/
 def St.propfail (s : St) (m : String) : St :=
   if s.c08 ∧ (m.splitOn "class=defined-bit-contradicted").length < 2 then s
-  else if s.propfails < 400 then { s with propfails := s.propfails + 1, out := s.out.push ("PROPFAIL case=" ++ s.caseId ++ " " ++ m) }
-  else { s with propfails := s.propfails + 1 }
+  else
+    let k := msgKey m
+    if lookup s.failSeen k < 6 then
+      { s with propfails := s.propfails + 1, failSeen := bump s.failSeen k, out := s.out.push ("PROPFAIL case=" ++ s.caseId ++ " " ++ m) }
+    else { s with propfails := s.propfails + 1 }
 
 def polOf (c : String) : Pol :=
   if c == "z" then .zero else if c == "o" then .one else if c == "s" then .sign else .none
